@@ -20,11 +20,19 @@ fn side_file(tag: &str) -> String {
     format!("/dev/shm/jsim-side-{}-{}-{}", std::process::id(), tag, n)
 }
 
-fn died(sig: i32, what: &str) -> Violation {
+fn last_words(stderr: &[u8]) -> String {
+    let t = String::from_utf8_lossy(stderr);
+    let l: Vec<&str> = t.lines().filter(|l| !l.trim().is_empty() && !l.starts_with("note:") && !l.starts_with("HARNESS PANIC")).collect();
+    let tail = l[l.len().saturating_sub(3)..].join(" / ");
+    tail.chars().take(400).collect()
+}
+
+fn died(sig: i32, what: &str, stderr: &[u8]) -> Violation {
+    let lw = last_words(stderr);
     Violation {
         oracle: "process-died".into(),
         site: format!("signal {}", sig),
-        detail: format!("executing the run killed its process with signal {} ({})", sig, what),
+        detail: format!("executing the run killed its process with signal {} ({}){}", sig, what, if lw.is_empty() { String::new() } else { format!("; last words: {}", lw) }),
         step: 0,
         in_rw_tx: false,
     }
@@ -52,7 +60,7 @@ pub fn execute_isolated(case: &Case) -> Verdict {
         Ok(e) => e,
         Err(e) => return Verdict { harness_error: Some(format!("current_exe: {}", e)), ..Default::default() },
     };
-    let ch = Command::new(exe).arg("exec-case").env("JSIM_STEPLOG", &log).stdin(Stdio::piped()).stdout(Stdio::piped()).stderr(Stdio::null()).spawn();
+    let ch = Command::new(exe).arg("exec-case").env("JSIM_STEPLOG", &log).env("JSIM_VERBOSE_PANICS", "1").stdin(Stdio::piped()).stdout(Stdio::piped()).stderr(Stdio::piped()).spawn();
     let mut ch = match ch {
         Ok(c) => c,
         Err(e) => return Verdict { harness_error: Some(format!("spawn: {}", e)), ..Default::default() },
@@ -84,7 +92,7 @@ pub fn execute_isolated(case: &Case) -> Verdict {
                 steps.push(s);
             }
         }
-        let mut v = Verdict { violation: Some(died(sig, signal_name(sig))), ..Default::default() };
+        let mut v = Verdict { violation: Some(died(sig, signal_name(sig), &out.stderr)), ..Default::default() };
         if let Some(x) = v.violation.as_mut() {
             x.step = steps.len().saturating_sub(1);
         }
@@ -126,7 +134,7 @@ pub fn exec_case_main() -> i32 {
 /// died, the scheduling decisions it had taken.
 pub fn execute_isolated_sh(case: &Case) -> (Verdict, Vec<u32>) {
     let log = side_file("sched");
-    let ch = Command::new(props::sh_exe()).arg("oneshot").env("JSIM_SCHEDLOG", &log).stdin(Stdio::piped()).stdout(Stdio::piped()).stderr(Stdio::null()).spawn();
+    let ch = Command::new(props::sh_exe()).arg("oneshot").env("JSIM_SCHEDLOG", &log).env("JSIM_VERBOSE_PANICS", "1").stdin(Stdio::piped()).stdout(Stdio::piped()).stderr(Stdio::piped()).spawn();
     let mut ch = match ch {
         Ok(c) => c,
         Err(e) => return (Verdict { harness_error: Some(format!("spawn: {}", e)), ..Default::default() }, vec![]),
@@ -153,7 +161,7 @@ pub fn execute_isolated_sh(case: &Case) -> (Verdict, Vec<u32>) {
         }
     }
     if let Some(sig) = out.status.signal() {
-        return (Verdict { violation: Some(died(sig, signal_name(sig))), ..Default::default() }, list);
+        return (Verdict { violation: Some(died(sig, signal_name(sig), &out.stderr)), ..Default::default() }, list);
     }
     match serde_json::from_slice::<Value>(&out.stdout) {
         Ok(o) => (crate::worker::verdict_from(&o), list),
